@@ -77,6 +77,23 @@ def paths(st_v):
     return [st, [[name(x) for x in p] for p in v] if st == 'ok' else []]
 
 
+def end_paths(x, a, synsets):
+    """relation_paths(*a, end=e) for a reachable, a last-reached and an arbitrary synset"""
+    st, cl = call(lambda: list(x.closure(*a)))
+    ends = []
+    if st == 'ok' and cl:
+        ends += [cl[0], cl[-1]]
+    ends += synsets[:1]
+    out, seen = [], set()
+    for e in ends:
+        k = tuple(name(e))
+        if k in seen:
+            continue
+        seen.add(k)
+        out.append([name(e), paths(call(lambda: list(x.relation_paths(*a, end=e))))])
+    return out
+
+
 def install(tables):
     w = World()
     for k, v in tables.items():
@@ -109,6 +126,7 @@ def battery(tables, cfg, want, argsets):
         for s in str(c.message).split(': ', 1)[-1].split()))
     if st != 'ok':
         o.update({'lexicons': [], 'expanded': [], 'W': [], 'S': [], 'Y': [], 'desc': [], 'A': [], 'ident': [],
+                  'LK': [], 'mlists': [],
                   'TS': [], 'TW': [],
                   'words': [], 'senses': [], 'synsets': []})
         return o
@@ -138,6 +156,18 @@ def battery(tables, cfg, want, argsets):
     o['words'] = [name(x) for x in words]
     o['senses'] = [name(x) for x in senses]
     o['synsets'] = [name(x) for x in synsets]
+    # look-ups by identifier, through the Wordnet and through the module-level functions
+    mkw = {k: v for k, v in kw.items() if k != 'expand'}
+    ids = {'word': sorted({e[1] for e in tables['entries']}) + ['no-such-id'],
+           'sense': sorted({e[1] for e in tables['senses']}) + ['no-such-id'],
+           'synset': sorted({e[1] for e in tables['synsets']}) + ['no-such-id']}
+    o['LK'] = []
+    for kind in ('word', 'sense', 'synset'):
+        for i in ids[kind]:
+            o['LK'].append([kind, i, one(call(getattr(w, kind), i)),
+                            one(call(getattr(wn, kind), i, **mkw))])
+    o['mlists'] = [names(call(wn.words, **mkw)), names(call(wn.senses, **mkw)),
+                   names(call(wn.synsets, **mkw))]
     o['W'] = []
     for x in words:
         fs = x.forms()
@@ -195,7 +225,8 @@ def battery(tables, cfg, want, argsets):
             row += [rels(call(x.relations)), relmap(call(x.relation_map)),
                     [[a, names(call(x.get_related, *a)),
                       names(call(lambda: list(x.closure(*a)))),
-                      paths(call(lambda: list(x.relation_paths(*a))))] for a in argsets['synset']],
+                      paths(call(lambda: list(x.relation_paths(*a)))),
+                      end_paths(x, a, synsets)] for a in argsets['synset']],
                     [names(call(x.hypernyms)), names(call(x.hyponyms)),
                      names(call(x.holonyms)), names(call(x.meronyms))]]
         else:
